@@ -126,7 +126,7 @@ fn raw3(t: Option<Triple>) -> Option<(Option<u64>, Option<u32>, Option<u32>)> {
 }
 
 #[kani::proof]
-#[kani::unwind(4)]
+#[kani::unwind(10)]
 #[kani::stub(<[(u64, u32, (std::option::Option<u64>, std::option::Option<u32>, std::option::Option<u32>))]>::binary_search_by_key, Bs::contract)]
 #[kani::stub(<[(u32, u32, (std::option::Option<u64>, std::option::Option<u32>, std::option::Option<u32>))]>::binary_search_by_key, Bs::contract)]
 #[kani::stub(<[(u32, (std::option::Option<u64>, std::option::Option<u32>, std::option::Option<u32>))]>::binary_search_by_key, Bs::contract)]
@@ -150,7 +150,7 @@ fn maximize_is_cascade_no_lang() {
 }
 
 #[kani::proof]
-#[kani::unwind(4)]
+#[kani::unwind(10)]
 #[kani::stub(<[(u64, u32, (std::option::Option<u64>, std::option::Option<u32>, std::option::Option<u32>))]>::binary_search_by_key, Bs::contract)]
 #[kani::stub(<[(u32, u32, (std::option::Option<u64>, std::option::Option<u32>, std::option::Option<u32>))]>::binary_search_by_key, Bs::contract)]
 #[kani::stub(<[(u32, (std::option::Option<u64>, std::option::Option<u32>, std::option::Option<u32>))]>::binary_search_by_key, Bs::contract)]
@@ -176,7 +176,7 @@ fn maximize_is_cascade_lang() {
 /// C07 idempotence: a result of maximize has all three subtags (asserted in every cascade harness), and maximize reports
 /// `unchanged` on every identifier that has all three — for ALL raw values, no table involved
 #[kani::proof]
-#[kani::unwind(4)]
+#[kani::unwind(10)]
 fn maximize_full_is_unchanged() {
     let (l, s, r) = (any_some_lang(), any_script(), any_region());
     kani::assume(s.is_some() && r.is_some());
@@ -186,7 +186,7 @@ fn maximize_full_is_unchanged() {
 /// C07 on the library function: only adds, fills all three, idempotent (for ALL raw inputs; the table facts it needs —
 /// every value carries all three subtags and keeps its key's subtags — are read from the real tables at the symbolic index)
 #[kani::proof]
-#[kani::unwind(4)]
+#[kani::unwind(10)]
 #[kani::stub(<[(u64, u32, (std::option::Option<u64>, std::option::Option<u32>, std::option::Option<u32>))]>::binary_search_by_key, Bs::contract)]
 #[kani::stub(<[(u32, u32, (std::option::Option<u64>, std::option::Option<u32>, std::option::Option<u32>))]>::binary_search_by_key, Bs::contract)]
 #[kani::stub(<[(u32, (std::option::Option<u64>, std::option::Option<u32>, std::option::Option<u32>))]>::binary_search_by_key, Bs::contract)]
@@ -327,7 +327,7 @@ fn finding_minimize_after_maximize_und_arab_id() {
 
 /// quick-tier slice of maximize_is_cascade_lang: inputs decided by a (language, region) or (language, script) entry
 #[kani::proof]
-#[kani::unwind(4)]
+#[kani::unwind(10)]
 #[kani::stub(<[(u64, u32, (std::option::Option<u64>, std::option::Option<u32>, std::option::Option<u32>))]>::binary_search_by_key, Bs::contract)]
 #[kani::stub(<[(u32, u32, (std::option::Option<u64>, std::option::Option<u32>, std::option::Option<u32>))]>::binary_search_by_key, Bs::contract)]
 #[kani::stub(<[(u32, (std::option::Option<u64>, std::option::Option<u32>, std::option::Option<u32>))]>::binary_search_by_key, Bs::contract)]
